@@ -169,7 +169,7 @@ func decodedMeta(p *Plan) *Plan {
 			}
 		}
 	}
-	if !need {
+	if !need && !p.Config.RawKeys {
 		return p
 	}
 	q := *p
@@ -178,6 +178,16 @@ func decodedMeta(p *Plan) *Plan {
 		q.Clients[ci] = append([]Op(nil), c...)
 		for oi := range q.Clients[ci] {
 			op := &q.Clients[ci][oi]
+			if p.Config.RawKeys {
+				op.Key, op.SrcKey = unescapeBytes(op.Key), unescapeBytes(op.SrcKey)
+				if len(op.Keys) > 0 {
+					ks := append([]KeyRef(nil), op.Keys...)
+					for i := range ks {
+						ks[i].Key = unescapeBytes(ks[i].Key)
+					}
+					op.Keys = ks
+				}
+			}
 			if op.Meta == nil {
 				continue
 			}
